@@ -76,6 +76,21 @@ def judge(ctx, tracefile, label, timeout=900):
         traces[-1].append(ln)
     rejected = []
     ok = 0
+    # subscription requests of free-running goroutines are also recorded by start and return: where every one of
+    # them passed its in-lock point those two records say nothing more and are dropped; a trace with one that did
+    # not is judged by RegistryTraceCalls.tla, where the registration is a step between start and return
+    plain = []
+    for t in traces:
+        if any('"b":"subret"' in ln and '"seen":false' in ln for ln in t):
+            if not judge_calls(ctx, header, t):
+                rejected.append({"trace": [json.loads(x) for x in t], "unexplained_record": "(a subscription request returned "
+                                 "without its critical section having been seen; no placement of the registration between its "
+                                 "start and its return explains the rest)"})
+            else:
+                ok += 1
+        else:
+            plain.append([ln for ln in t if '"b":"subcall"' not in ln and '"b":"subret"' not in ln])
+    traces = plain
     for _round in range(6):
         if not traces:
             break
@@ -121,12 +136,194 @@ def judge(ctx, tracefile, label, timeout=900):
     return ok, rejected
 
 
+def judge_calls(ctx, header, trace):
+    path = os.path.join(ctx.scratch, "trace.ndjson")
+    with open(path, "w") as fh:
+        fh.write(header + "\n" + "\n".join(trace) + "\n")
+    res = vlib.run_tlc(ctx, "RegistryTraceCalls", "Registry_trace_calls.cfg", extra_files=[path], workers=1, timeout=600, tag="@@REJ")
+    if res.vecs or res.violated:
+        return False
+    if res.error or res.rc != 0:
+        raise vlib.MachineryError("RegistryTraceCalls failed: %s\n%s" % (res.error, "\n".join(res.lines[-20:])))
+    return True
+
+
+def calls_self_test(ctx, header):
+    """RegistryTraceCalls must be able to say both things (pool: subscriber 2 matches "a" and never fails)."""
+    h = json.loads(header)
+    ks = h["selKeys"][h["pool"][1]["sel"]]
+    msg = [[k[0], h["evVals"]["e1"][k[1]]] for k in ks]
+    js = lambda r: json.dumps(r, separators=(",", ":"))
+    good = [{"p": 0, "b": "init", "reg": []}, {"p": 1, "b": "subcall", "s": 2},
+            {"p": 2, "b": "pub1", "id": "a", "ev": "e1", "cnt": 1, "err": False, "sent": [[2, msg]], "reg": [2]},
+            {"p": 2, "b": "pub2", "cleaned": [], "reg": [2]}, {"p": 1, "b": "subret", "s": 2, "seen": False}]
+    bad = [{"p": 0, "b": "init", "reg": []}, {"p": 1, "b": "subcall", "s": 2}, {"p": 1, "b": "subret", "s": 2, "seen": False},
+           {"p": 2, "b": "unsub", "id": "a", "cnt": 0, "cleaned": [], "reg": []}]
+    if not judge_calls(ctx, header, [js(r) for r in good]):
+        raise vlib.MachineryError("RegistryTraceCalls self-test: a registration between start and return was not accepted")
+    if judge_calls(ctx, header, [js(r) for r in bad]):
+        raise vlib.MachineryError("RegistryTraceCalls self-test: an unsubscribe missing a subscriber whose request had returned was accepted")
+    ctx.extra["calls_judge_self_test"] = "1 accepted, 1 rejected as expected"
+
+
 def record_and_judge(ctx, up, mode, args, label, timeout=900):
     out = os.path.join(ctx.scratch, "rec-%s.ndjson" % label)
     rep = vlib.run_harness_json(ctx, "registry", [mode, "-universe", up, "-out", out] + args, timeout=timeout)
     absorb(ctx, rep, label)
     ok, rej = judge(ctx, out, label, timeout=timeout)
     return rep, ok, rej
+
+
+# ---------------------------------------------------------------- probes: operations started inside callbacks
+
+def _op_blocks(o, p, log):
+    """The blocks of one operation with what was observed for it."""
+    mine = [e for e in log if e["op"] == ("outer" if p == 1 else "inner")]
+    sent = [[e["s"], e["msg"]] for e in mine if e["kind"] == "send"]
+    cleaned = [e["s"] for e in mine if e["kind"] == "cleanup"]
+    if o["kind"] == "sub":
+        b = {"p": p, "b": "sub", "s": o["s"]}
+        if sent:
+            b["sent"] = sent
+        if cleaned:
+            b["cleaned"] = cleaned
+        return [b]
+    if o["kind"] == "unsub":
+        b = {"p": p, "b": "unsub", "id": o["id"], "cnt": o["cnt"], "cleaned": cleaned}
+        if sent:
+            b["sent"] = sent
+        return [b]
+    return [{"p": p, "b": "pub1", "id": o["id"], "ev": o["ev"], "cnt": o["cnt"], "err": o["err"], "sent": sent},
+            {"p": p, "b": "pub2", "cleaned": cleaned}]
+
+
+def _merges(a, b):
+    if not a:
+        return [list(b)]
+    if not b:
+        return [list(a)]
+    return [[a[0]] + m for m in _merges(a[1:], b)] + [[b[0]] + m for m in _merges(a, b[1:])]
+
+
+def _views(events):
+    """What each subscriber saw, in its own order: (operation, send|cleanup)."""
+    v = {}
+    for op, kind, s in events:
+        v.setdefault(s, []).append((op, kind))
+    return v
+
+
+def probe_candidates(rec):
+    """Every order of the blocks of the two overlapping operations that gives each subscriber the sequence of
+    calls it actually saw. (The inner operation ran entirely inside a callback of the outer one, so neither has to
+    come first; a subscriber's own view is what the property's 'nothing afterwards' is about.)"""
+    seen = _views([("outer" if e["op"] == "outer" else "inner", e["kind"], e["s"]) for e in rec["log"]])
+    out = []
+    for m in _merges(_op_blocks(rec["outer"], 1, rec["log"]), _op_blocks(rec["inner"], 2, rec["log"])):
+        ev = []
+        for b in m:
+            who = "outer" if b["p"] == 1 else "inner"
+            ev += [(who, "send", x[0]) for x in b.get("sent", [])]
+            ev += [(who, "cleanup", x) for x in b.get("cleaned", [])]
+        if _views(ev) == seen:
+            m = [dict(b) for b in m]
+            m[-1]["reg"] = rec["reg"]
+            out.append(m)
+    return out
+
+
+def judge_probe(ctx, header, rec, label):
+    """True if some order of the two operations' blocks is a behaviour of Registry.tla."""
+    cands = probe_candidates(rec)
+    for i, m in enumerate(cands):
+        path = os.path.join(ctx.scratch, "trace.ndjson")
+        with open(path, "w") as fh:
+            fh.write(json.dumps(header, separators=(",", ":")) + "\n")
+            fh.write(json.dumps({"p": 0, "b": "init", "reg": rec["init"]}, separators=(",", ":")) + "\n")
+            for b in m:
+                fh.write(json.dumps(b, separators=(",", ":")) + "\n")
+        res = vlib.run_tlc(ctx, "RegistryTrace", "Registry_trace.cfg", extra_files=[path], workers=1, timeout=300, tag="@@REJ")
+        if res.vecs or res.violated:
+            continue
+        if res.error or res.rc != 0:
+            raise vlib.MachineryError("RegistryTrace failed on a probe (%s): %s\n%s" % (label, res.error, "\n".join(res.lines[-20:])))
+        return True, len(cands)
+    return False, len(cands)
+
+
+PROBE_FIXTURES = [
+    # Unsubscribe("a") over [1, 2] releasing the lock around each clean-up; a publish of "a" runs during the
+    # clean-up of 2 and reaches 1 only: no order of the two calls gives that.
+    ("lock released around each clean-up", False,
+     {"init": [1, 2], "outer": {"kind": "unsub", "id": "a", "cnt": 1, "err": False},
+      "inner": {"kind": "pub", "id": "a", "ev": "e1", "cnt": 1, "err": True}, "k": 1, "at": "cleanup", "at_s": 2,
+      "log": [{"op": "outer", "kind": "cleanup", "s": 2}, {"op": "inner", "kind": "send", "s": 1, "msg": "MSG1"},
+              {"op": "inner", "kind": "cleanup", "s": 1}], "reg": []}),
+    # both removed under the lock, the clean-ups called after it is released; the publish during the first
+    # clean-up finds nobody: unsubscribe, then publish.
+    ("clean-ups after the removals", True,
+     {"init": [1, 2], "outer": {"kind": "unsub", "id": "a", "cnt": 2, "err": False},
+      "inner": {"kind": "pub", "id": "a", "ev": "e1", "cnt": 0, "err": False}, "k": 1, "at": "cleanup", "at_s": 2,
+      "log": [{"op": "outer", "kind": "cleanup", "s": 2}, {"op": "outer", "kind": "cleanup", "s": 1}], "reg": []}),
+    # a publish delivering from a list taken earlier: 2 is unsubscribed and cleaned up during the delivery to 1
+    # and is sent the event afterwards.
+    ("delivery from a stale list", False,
+     {"init": [1, 2], "outer": {"kind": "pub", "id": "a", "ev": "e1", "cnt": 2, "err": True},
+      "inner": {"kind": "unsub", "id": "a", "cnt": 2, "err": False}, "k": 1, "at": "send", "at_s": 1,
+      "log": [{"op": "outer", "kind": "send", "s": 1, "msg": "MSG1"}, {"op": "inner", "kind": "cleanup", "s": 2},
+              {"op": "inner", "kind": "cleanup", "s": 1}, {"op": "outer", "kind": "send", "s": 2, "msg": "MSG2"}], "reg": []}),
+]
+
+
+def probes(ctx, up, label, fixtures=True):
+    """Operations started from inside callbacks that run with the registry lock free (harness mode probe)."""
+    out = os.path.join(ctx.scratch, "probe-%s.json" % label)
+    rep = vlib.run_harness_json(ctx, "registry", ["probe", "-universe", up, "-out", out], timeout=1800)
+    absorb(ctx, rep, label)
+    data = json.load(open(out))
+    header, fired = data["universe"], data["fired"] or []
+    ex = ctx.extra.setdefault("callback_probes", {})
+    ex[label] = {k: rep.get("extra", {}).get(k) for k in ("probe_runs", "callbacks_seen", "callbacks_with_lock_free",
+                                                          "callbacks_with_lock_free_by_kind", "probes_fired")}
+    # spread over the fired probes: one per (outer kind, inner kind, callback kind) first
+    order, seen = [], set()
+    for r in fired:
+        key = (r["outer"]["kind"], r["inner"]["kind"], r["at"])
+        if key not in seen:
+            seen.add(key)
+            order.append(r)
+    order += [r for r in fired if r not in order]
+    judged = bad = 0
+    for r in order[:40]:
+        okay, n = judge_probe(ctx, header, r, label)
+        judged += 1
+        ctx.evaluations += 1
+        if not okay:
+            bad += 1
+            ctx.violations.append({"from": label, "what": "an operation run inside a callback of another one (the registry lock was "
+                                   "free there): no order of the two operations' blocks that gives every subscriber what it saw is "
+                                   "a behaviour of Registry.tla (%d orders fit the subscribers' views)" % n, "case": r})
+            if bad >= 3:
+                break
+    ex[label]["probes_judged"] = judged
+    if fixtures:
+        # the judge must be able to say both things
+        pool = header["pool"]
+        msgs = {}
+        for s in (1, 2):
+            ks = header["selKeys"][pool[s - 1]["sel"]]
+            msgs["MSG%d" % s] = [[k[0], header["evVals"]["e1"][k[1]]] for k in ks]
+        for name, want, rec in PROBE_FIXTURES:
+            if not (pool[0]["pat"] == "a" and pool[1]["pat"] == "a" and pool[0]["failAt"] == 1 and pool[1]["failAt"] == 0):
+                raise vlib.MachineryError("probe fixtures are written for a pool starting with two 'a' subscribers, the first failing at once")
+            rec = json.loads(json.dumps(rec))
+            for e in rec["log"]:
+                if e.get("msg") in msgs:
+                    e["msg"] = msgs[e["msg"]]
+            got, _ = judge_probe(ctx, header, rec, "fixture")
+            if got != want:
+                raise vlib.MachineryError("probe judge self-test: '%s' should be %s" % (name, "accepted" if want else "rejected"))
+        ex[label]["judge_self_test"] = "%d hand-written overlapping histories judged as expected (2 rejected, 1 accepted)" % len(PROBE_FIXTURES)
 
 
 def negative_controls(ctx, up, vecs):
@@ -206,7 +403,9 @@ def run_c19(ctx):
     # the exactly-once guarantees (one message per publish, one clean-up per removal) with a second caller between the two
     # phases of a publish: every block interleaving of two callers with one operation each, replayed through the gate scheduler
     vecs2, uni2 = model_and_vectors(ctx, [1, 2], 1, "MCPoolA", "MCInitSome", evids='{"e1"}', timeout=3000)
-    replay(ctx, vecs2, uni2, "sched-replay-MCPoolA-2x1")
+    rep2, up2 = replay(ctx, vecs2, uni2, "sched-replay-MCPoolA-2x1")
+    # a publish or an unsubscribe started from inside a callback of another one, wherever a callback runs with the lock free
+    probes(ctx, up2, "probe-MCPoolA")
     if not quick:
         negative_controls(ctx, up, vecs)
     ctx.exhaustive = True
@@ -286,6 +485,8 @@ def run_c20(ctx):
         vecs, uni = model_and_vectors(ctx, procs, maxops, pool, inits, evids=evids, timeout=3000)
         rep, up1 = replay(ctx, vecs, uni, "sched-replay-%s-%dx%d" % (pool, len(procs), maxops))
         up = up or up1
+    # (2b) operations started inside callbacks that run with the registry lock free
+    probes(ctx, up, "probe-MCPoolA")
     # (3) Go-side exhaustive schedules, judged by TLC
     record_and_judge(ctx, up, "sched", ["-procs", "2", "-ops", "1"], "go-sched-2x1", timeout=1800)
     if not quick:
@@ -294,6 +495,8 @@ def run_c20(ctx):
     # (4) free-running, recorded in lock order
     record_and_judge(ctx, up, "stress", ["-iters", "40" if quick else "400", "-goroutines", "4", "-ops", "3"],
                      "stress", timeout=1800)
+    with open(os.path.join(ctx.scratch, "rec-stress.ndjson")) as fh:
+        calls_self_test(ctx, fh.readline().strip())
     # (5) hook-free race-detector stress
     rep = vlib.run_harness_json(ctx, "registry", ["race", "-universe", up, "-iters", "60" if quick else "1500",
                                                   "-goroutines", "8" if quick else "16", "-ops", "6"],
